@@ -54,7 +54,7 @@ def py_range(k, A, Bv):
 def check_kernel(kname):
     k = _K[kname]
     cty, bits, signed = arith.TYPEINFO[k.tname]
-    T = int(os.environ.get('VF_QTIMEOUT', '60'))
+    T = int(os.environ.get('VF_QTIMEOUT', '180'))
     t0 = time.time()
     out = []
     try:
@@ -179,7 +179,7 @@ def check_dictiter(variant):
     from ..cir.symex import Ptr
     out = []
     t0 = time.time()
-    T = int(os.environ.get('VF_QTIMEOUT', '60'))
+    T = int(os.environ.get('VF_QTIMEOUT', '180'))
     fname = '__Pyx_dict_iter_next_source_is_dict'
     try:
         ex, env = _BD.new_exec(unroll=2)
